@@ -1,0 +1,27 @@
+//go:build verif
+// +build verif
+
+package util
+
+import (
+	"os"
+	"strconv"
+)
+
+// Crash points for the verification harness: the process exits (no deferred
+// functions, no flushing) when the VERIF_CRASH_AT-th point is passed. The
+// number of points passed is written to the file named by VERIF_CRASH_COUNT.
+var verifCrashCount int
+
+func verifCrashPoint(name string) {
+	verifCrashCount++
+	if p := os.Getenv("VERIF_CRASH_COUNT"); p != "" {
+		if f, err := os.OpenFile(p, os.O_WRONLY|os.O_CREATE|os.O_APPEND, 0644); err == nil {
+			f.WriteString(strconv.Itoa(verifCrashCount) + " " + name + "\n")
+			f.Close()
+		}
+	}
+	if at, err := strconv.Atoi(os.Getenv("VERIF_CRASH_AT")); err == nil && at == verifCrashCount {
+		os.Exit(77)
+	}
+}
